@@ -26,7 +26,7 @@ def specs(tier, volume=1):
                                ("typical_over", "mixed")]:
                     if kind == "qmpt" and m == 4 and sh != "typical":
                         continue
-                    for sv in ("all", "perm", "subset", "repeat"):
+                    for sv in ("all", "perm", "reversed", "subset", "repeat"):
                         if sv != "all" and (sh, ph) not in (("random", "mixed"), ("typical", "typical")):
                             continue
                         if quick and kind == "qmpt" and m == 4 and sv != "all":
@@ -56,6 +56,10 @@ def variant_schedules(g, kind, n_states, n_povms, variant):
     idx = [int(i) for i in g.permutation(len(base))]
     if variant == "perm":
         sch = [base[i] for i in idx]
+        if sch == base and len(base) > 1:      # never the identity enumeration
+            sch = sch[1:] + sch[:1]
+    elif variant == "reversed":
+        sch = base[::-1]
     elif variant == "subset":
         sch = [base[i] for i in sorted(idx[: max(2, (2 * len(base)) // 3)])]
     else:  # repeat
@@ -76,8 +80,8 @@ class Setup:
         self.kind, self.flag, self.m = kind, flag, m
         arg, self.schedules = variant_schedules(self.g, kind, len(self.states), len(self.povms), sv)
         self.qt = ts.build(kind, self.states, self.povms, flag, m, arg)
-        self.A = self.qt.calc_matA()
-        self.b = self.qt.calc_vecB()
+        self.A = np.array(self.qt.calc_matA(), dtype=np.float64, copy=True)
+        self.b = np.array(self.qt.calc_vecB(), dtype=np.float64, copy=True)
         self.pairs = []
         for s in self.schedules:
             i, j = ts.schedule_indices(kind, s)
@@ -140,18 +144,24 @@ def impl_err(e):
     return type(e).__name__
 
 
+def raised(ctx, where, spec, e, rep):
+    """an unexpected exception from the real code on a property-relevant input is a violation with that input"""
+    ctx.violate(f"C08/{where}/{spec[3]}/flag={spec[4]}/raises-{type(e).__name__}",
+                f"{type(e).__name__}: {str(e)[:200]} on {spec}", rep)
+
+
 # ----------------------------------------------------------------------------- correspondence
 def correspondence(ctx):
     drv = Driver("C08")
     pend = []
     eps = Settings.get_atol()
     lim = 40000 if ctx.quick else 400000     # entries of matA handled by the exact model in this tier
-    for spec in specs(ctx.tier):
+    def one(spec):
         S = Setup(ctx.seed, spec)
         A, b = S.A, S.b
         if A.size > lim:
             ctx.count("corr skipped (matA too large for this tier)")
-            continue
+            return
         kind, flag, m, n = S.kind, S.flag, S.m, S.n
         r = q(np.sqrt(S.d))
         fl = "1" if flag else "0"
@@ -203,6 +213,12 @@ def correspondence(ctx):
         except ValueError as ex:
             w = ("err", impl_err(ex))
         pend.append(("predict-shape", spec, w, i))
+
+    for spec in specs(ctx.tier):
+        try:
+            one(spec)
+        except Exception as e:  # noqa
+            raised(ctx, "correspondence", spec, e, {"kind": "setup", "seed": ctx.seed, "spec": list(spec)})
     out = drv.run()
     for op, inp, impl, i in pend:
         ctx.corr_ops.add(op)
@@ -243,11 +259,22 @@ def spans(vectors, n):
 
 
 def check_setup(ctx, spec, full_basis=True):
+    """nothing raised by the real code escapes: constructor / forward model / circuit exceptions become violations"""
+    try:
+        _check_setup(ctx, spec, full_basis)
+    except Exception as e:  # noqa
+        raised(ctx, "oracle", spec, e, {"kind": "setup", "seed": ctx.seed, "spec": list(spec)})
+
+
+def _check_setup(ctx, spec, full_basis=True):
     S = Setup(ctx.seed, spec)
     qt, A, b, kind, flag = S.qt, S.A, S.b, S.kind, S.flag
     rep = {"kind": "setup", "seed": ctx.seed, "spec": list(spec)}
     tag = f"{kind}/flag={flag}"
     ctx.count(f"oracle {spec[0]} {kind} flag={flag} sched={spec[6]} counts={'mixed' if len(set(S.counts)) > 1 else 'equal'}")
+    if not (np.all(np.isfinite(A)) and np.all(np.isfinite(b))):
+        ctx.violate(f"C08/calc_matA/{tag}/non-finite", f"{spec}: matA / vecB contain non-finite entries", rep)
+        return
     # --- one column per variable, one row per (schedule, outcome)
     if A.shape[1] != qt.num_variables or A.shape[0] != sum(S.counts) or b.shape != (A.shape[0],):
         ctx.violate(f"C08/calc_matA/{tag}/shape", f"{spec}: matA {A.shape}, num_variables {qt.num_variables}, "
